@@ -59,6 +59,11 @@ fn gen_comment_case(gt: &[u16], its: &[Vec<u16>]) -> CommentCase {
     };
     let mut block = vec![];
     for _ in 0..t.next(3) {
+        if t.next(4) == 0 {
+            // the C style, for which parol has a dedicated pattern
+            block.push(("/*".to_string(), "*/".to_string(), q(&mut t)));
+            continue;
+        }
         let s = word(&mut t, 1, 4);
         let e = word(&mut t, 1, 3);
         block.push((s, e, q(&mut t)));
@@ -233,7 +238,14 @@ impl Check for C15 {
                         }
                     }
                 });
-                let sig = if partial3 {
+                // the C-style pattern /\*/?([^/]|[^*]/)*\*/ runs on when the closing */ is directly
+                // followed by a slash
+                let c_style_slash = c.block.iter().any(|(s0, e, _)| {
+                    s0 == "/*" && e == "*/" && rest.starts_with("/*") && rest[2..].find("*/").is_some_and(|q| rest[2 + q + 2..].starts_with('/'))
+                });
+                let sig = if c_style_slash {
+                    "C15:c_style_block_comment_directly_followed_by_slash"
+                } else if partial3 {
                     "C15:block_comment_3_char_end_delimiter_after_partial_delimiter"
                 } else if lone_cr {
                     "C15:line_comment_ended_by_lone_cr"
